@@ -78,6 +78,29 @@ pub fn mk_source(pv: ProtocolVersion, desired: PollInterval) -> Src {
 pub const CFG_MIN_POLL: i8 = 4; // SourceConfig::default()
 pub const CFG_MAX_POLL: i8 = 10;
 
+// ------------------------------------------------------------------ clock
+/// Ghost clock for these harnesses: one arbitrary instant, returned by EVERY `Instant::now()`
+/// of the run (the harness's own reading `base` and the readings of the code under test).
+/// Only differences between the pending deadline and `now` matter to the code, and the deadline
+/// is `base +/- d` with arbitrary d, so nothing is lost against a clock that advances between
+/// the readings - but a counterexample found this way also replays natively, where the real
+/// clock advances by microseconds between the readings (the deadline keeps >= 0.25 s distance
+/// from every whole-second offset of `base`, see `any_source`). With `stubs::symbolic_clock()`
+/// (arbitrary gaps between readings) the solver picks counterexamples in which hours pass
+/// between `base` and the code's `now`; those cannot be reproduced under the real clock.
+#[cfg(kani)]
+pub fn frozen_clock() {
+    let s: i64 = kani::any();
+    let n: u32 = kani::any();
+    kani::assume(s >= 0 && s < (1 << 40));
+    kani::assume(n < 1_000_000_000);
+    unsafe {
+        stubs::NOW_SECS = [s; 4];
+        stubs::NOW_NANOS = [n; 4];
+        stubs::NOW_IDX = 0;
+    }
+}
+
 // ------------------------------------------------------------------ arbitrary pre-state
 /// Which protocol-version states a harness quantifies over.
 #[derive(Clone, Copy, PartialEq, Eq)]
@@ -128,7 +151,8 @@ pub struct Pre {
 }
 
 /// Builds a plain source in an arbitrary state. All nondeterministic values are drawn here.
-/// * pending request: none, or (any 64-bit id, no uid, deadline = base +/- (< 2^20 s)).
+/// * pending request: none, or (any 64-bit id, no uid, deadline = base +/- d, 1.25 s <= d < 2^20 s,
+///   fractional part of d in [0.25 s, 0.75 s]).
 /// * reach any u8, tries any usize, deny flag any.
 /// * last poll / remote minimum poll: any i8 with remote_min <= 126 (see C09 notes);
 ///   controller desire in the configured limits 4..=10 unless `desired_any`.
@@ -140,8 +164,13 @@ pub fn any_source(class: PvClass) -> (Src, Pre) {
     let d_neg: bool = kani::any();
     let d_secs: u64 = kani::any();
     let d_nanos: u32 = kani::any();
-    kani::assume(d_secs < (1 << 20));
-    kani::assume(d_nanos < 1_000_000_000);
+    // |deadline - base| = d_secs + d_nanos with 1 <= d_secs < 2^20 and the fraction in
+    // [0.25 s, 0.75 s]: the deadline is never within 0.25 s of `base` +/- a whole number of
+    // seconds, so under the REAL clock of a native replay (where the code reads `now` a few
+    // microseconds after `base`) every comparison of the deadline with now (+ k seconds) has the
+    // same outcome as under the ghost clock with all readings equal.
+    kani::assume(d_secs >= 1 && d_secs < (1 << 20));
+    kani::assume(d_nanos >= 250_000_000 && d_nanos <= 750_000_000);
     let reach: u8 = kani::any();
     let tries: usize = kani::any();
     let last_poll: i8 = kani::any();
